@@ -32,6 +32,7 @@ pub fn run(ctx: &Ctx) -> i32 {
         random_per_enc: ctx.n(4_000, 120_000),
         profile: Profile { max_tokens: ctx.tier.pick(14, 48), small_caps_weight: 90, queries: false, exact_queries: false, modes: &hist::ALL_MODES, sinks: &hist::ALL_SINKS, bom_prefix_weight: 32 },
         fills: vec![0xA5],
+        mixed_sinks: true,
     };
     let mut st = dech::run_dec_check(ctx, &dc);
     if !fw::should_stop() {
